@@ -43,10 +43,29 @@ func genCron(o *out) {
 		}
 		return true
 	})
-	for _, n := range []string{"second", "minute", "hour", "month", "year"} {
-		if _, ok := got[n]; !ok {
-			die("newCSMFromFields: node %s not found", n)
+	// roles come from the argument order of CSM.NewCronStateMachine(second, minute, hour, day, month, year),
+	// not from the variable names
+	var roles []string
+	ast.Inspect(fd.Body, func(n ast.Node) bool {
+		if c, ok := n.(*ast.CallExpr); ok && callName(c.Fun) == "CSM.NewCronStateMachine" && len(c.Args) == 6 {
+			for _, a := range c.Args {
+				roles = append(roles, callName(a))
+			}
 		}
+		return true
+	})
+	if len(roles) != 6 {
+		die("newCSMFromFields: CSM.NewCronStateMachine(second, minute, hour, day, month, year) not found")
+	}
+	for i, role := range []string{"second", "minute", "hour", "", "month", "year"} {
+		if role == "" {
+			continue
+		}
+		b, ok := got[roles[i]]
+		if !ok {
+			die("newCSMFromFields: the %s node (%s) is not built by CSM.NewCommonNode", role, roles[i])
+		}
+		got[role] = b
 	}
 	if len(dayBounds) != 2 || dayBounds[0] != dayBounds[1] {
 		die("newCSMFromFields: expected two day node constructors with equal bounds")
